@@ -22,6 +22,7 @@ def run(chk, repo):
         'C09.b the SECT event is in the variant list before the label is built; W2F ids are appended to each copied label',
         'C09.c multi-W substitution: every step of a combination is applied to the sequence produced by the previous step',
         'C09.d a start node longer than max_length is still explored when it carries a Sec site',
+        'C09.f full and Met-cleaved forms (plain and Sec-truncated) are each emitted under their own validity flag, independently of the other',
     ]
     chk.not_decided = ['that the output is exactly the set of peptides arising only through SECT / W2F (definitional digest)']
     f = repo.func(ENTRY)
@@ -139,3 +140,24 @@ def run(chk, repo):
            sec_loop is not None and not stale,
            f"the Sec-termination loop reads the untruncated `seq` at {stale}: validity / emission of the truncated peptide is decided on the wrong sequence",
            key=mt.qual + '::stale-seq-in-sec-loop', fn=mt.qual)
+
+    chk.rule('C09.f', 'R-GUARD: the full form and the Met-cleaved form are emitted independently (each under its own validity flag only)', 4)
+    cleaved_names = {unparse(n.targets[0]) for n in walk_no_nested(mt.node) if isinstance(n, ast.Assign) and isinstance(n.value, ast.Subscript)
+                     and isinstance(n.value.slice, ast.Slice) and n.value.slice.upper is None and isinstance(n.value.slice.lower, ast.Constant)
+                     and n.value.slice.lower.value == 1}
+    ys = [n for n in mcfg.nodes if n.kind == 'stmt' and isinstance(n.ast, ast.Expr) and isinstance(n.ast.value, ast.Yield)
+          and isinstance(n.ast.value.value, ast.Tuple)]
+    if len(ys) != 4:
+        raise AnalysisError(f"anchor={mt.qual}: expected 4 yields (full / Met-cleaved, plain / Sec-truncated), found {len(ys)}")
+    st = mcfg.must_facts()
+    for i, y in enumerate(ys):
+        first = unparse(y.ast.value.value.elts[0])
+        cleaved = first in cleaved_names
+        fx = st.get(y.id)
+        own, other = ('is_valid_start', 'is_valid') if cleaved else ('is_valid', 'is_valid_start')
+        ok = fx is not None and fx.known(own) is True and fx.known(other) is None
+        chk.ob('C09.f', f"yield #{i} ({'Met-cleaved' if cleaved else 'full'} form `{first}`) is reached exactly under `{own}`", repo.loc(mt, y.ast), ok,
+               f"at this yield `{own}` is {fx.known(own) if fx else None} and `{other}` is {fx.known(other) if fx else None}: the "
+               f"{'Met-cleaved' if cleaved else 'full'} form must be emitted whenever `{own}` holds and must not depend on `{other}` "
+               "(a Met-leading peptide of max_length + 1 residues has a valid cleaved form although the full form is invalid)",
+               key=f"{mt.qual}::yield-independent::{'sec' if i >= 2 else 'plain'}::{'cleaved' if cleaved else 'full'}", fn=mt.qual)
